@@ -352,6 +352,9 @@ func initSym(key string, epoch int) string { return fmt.Sprintf("|%s@%d|", key, 
 
 // hget returns the current term of a heap key in map h (nil map => pre-state).
 func (x *Exec) hget(h Heap, key string) string {
+	if x.readLog != nil {
+		x.readLog[key] = true
+	}
 	if t, ok := h.M[key]; ok {
 		return t
 	}
